@@ -402,8 +402,12 @@ func c13Hs(c *h.Ctx) {
 			respArg = hsHeader(hsSortedKeys(respHdr), respHdr)
 		}
 		early := r.Chance(6)
+		if r.Chance(40) {
+			up.HandshakeTimeout = time.Duration(1+r.Intn(3)) * time.Second
+		}
 		req := &http.Request{Method: method, Header: hd, Host: "example.com", Proto: "HTTP/1.1", ProtoMajor: 1, ProtoMinor: 1}
 		rw := &hsRW{hdr: http.Header{}, conn: newWsFake(nil)}
+		rw.conn.SetDeadline(time.Now().Add(5 * time.Second)) // what net/http's server arms (ReadTimeout / WriteTimeout)
 		if early {
 			rw.early = []byte{0x81, 0x80, 0, 0, 0, 0}
 		}
@@ -458,6 +462,9 @@ func c13Hs(c *h.Ctx) {
 				offered = offered || strings.Contains(e, "permessage-deflate")
 			}
 			announced := len(lines["Sec-Websocket-Extensions"]) == 1 && strings.HasPrefix(lines["Sec-Websocket-Extensions"][0], "permessage-deflate")
+			// the session outlives the handshake: no deadline of the HTTP server or of the handshake timeout stays armed
+			rdl, wdl := rw.conn.Deadlines()
+			c.Hold(rdl.IsZero() && wdl.IsZero(), "handshake.no_deadline_left_on_the_session", in+fmt.Sprintf(" HandshakeTimeout=%v", up.HandshakeTimeout), fmt.Sprintf("read deadline set: %v, write deadline set: %v", !rdl.IsZero(), !wdl.IsZero()), "none")
 			c.Hold(len(lines["Sec-WebSocket-Accept"]) == 1 && lines["Sec-WebSocket-Accept"][0] == hsAccept(key), "handshake.accept_key", in, fmt.Sprint(lines["Sec-WebSocket-Accept"]), hsAccept(key))
 			c.Hold(method == "GET" && key != "" && originOk, "handshake.only_upgrade_requests_accepted", in, impl, "GET with a key from an allowed origin")
 			c.Hold(!cw || (up.EnableCompression && offered), "handshake.compression_only_when_offered_and_enabled", in, b01(cw), "off")
@@ -568,7 +575,7 @@ func c13Hs(c *h.Ctx) {
 		if r.Chance(30) {
 			v.accept = r.Intn(4)
 		}
-		d := ws.Dialer{EnableCompression: r.Bool(), ReadBufferSize: 256, WriteBufferSize: 256, HandshakeTimeout: 2 * time.Second}
+		d := ws.Dialer{EnableCompression: r.Bool(), ReadBufferSize: 256, WriteBufferSize: 256, HandshakeTimeout: time.Duration(r.Intn(3)) * time.Second}
 		if r.Chance(40) {
 			d.Subprotocols = [][]string{{"chat"}, {"chat", "superchat"}, {"a", "b", "c"}}[r.Intn(3)]
 		}
@@ -688,6 +695,8 @@ func c13Hs(c *h.Ctx) {
 		model := c.O.Call("hs.client", hsHex(hsAccept(key)), hsHex(key), fmt.Sprint(v.status), hsHeader(hsSortedKeys(parsedResp), parsedResp))
 		c.Eq("hs.client", in, impl, model)
 		if strings.HasPrefix(impl, "accept ") {
+			rdl, wdl := sc.Deadlines()
+			c.Hold(rdl.IsZero() && wdl.IsZero(), "handshake.no_deadline_left_on_the_session", in+fmt.Sprintf(" HandshakeTimeout=%v", d.HandshakeTimeout), fmt.Sprintf("read deadline set: %v, write deadline set: %v", !rdl.IsZero(), !wdl.IsZero()), "none")
 			c.Hold(v.status == 101 && (v.accept == 0 || v.accept == 3), "handshake.client_checks_status_and_accept_key", in, impl, "101 and the right accept key")
 			full := false
 			for _, e := range v.exts {
